@@ -60,7 +60,11 @@ func (r *schedRun) ev(format string, a ...interface{}) {
 	r.s.mu.Lock()
 	r.hist = append(r.hist, e)
 	if !r.s.free {
-		r.s.tlog = append(r.s.tlog, "E "+who+" "+e)
+		ep := -1
+		if g, ok := r.s.byName[who]; ok {
+			ep = g.ep
+		}
+		r.s.tlog = append(r.s.tlog, fmt.Sprintf("E %d %s %s", ep, actorOr(who), e))
 	}
 	r.s.mu.Unlock()
 }
